@@ -39,36 +39,36 @@ const NS = "default"
 
 // Opts selects the controllers of a scenario.
 type Opts struct {
-	T            string // "" | "plain" | "finalizers" | "ignoretd"
-	QT           bool
-	QTConc       uint
+	T             string // "" | "plain" | "finalizers" | "ignoretd"
+	QT            bool
+	QTConc        uint
 	QTIgnoreWhile bool   // secondary configuration: WithIgnoreTeardownWhile("extin")
-	CL           string // "" | "remove" | "hasno" | "combine"
-	Destroy      bool
-	MaxDelay     int
-	Cached       bool
-	FailFirst    int // the first n transform invocations of each controller fail
+	CL            string // "" | "remove" | "hasno" | "combine"
+	Destroy       bool
+	MaxDelay      int
+	Cached        bool
+	FailFirst     int // the first n transform invocations of each controller fail
 	// PostponeRemoval: the FinalizerRemovalFunc of T ("finalizers") and QT postpones the removal (T: error tagged SkipReconcileTag, the
 	// documented way; QT: plain error, retried with back-off) until the harness lifts the hold after the first quiescent point
 	PostponeRemoval bool
-	Steps        int
-	Actors       int
+	Steps           int
+	Actors          int
 }
 
 // Outcome is what a scenario observed.
 type Outcome struct {
-	Opts    Opts
-	Log     []gp.Commit
-	Stage1  map[gp.Key]*gp.Snap // store at the first quiescent point (foreign finalizers as the actors left them)
-	Stage2  map[gp.Key]*gp.Snap // store after all foreign finalizers were removed and the system went quiet again
-	Final   map[gp.Key]*gp.Snap // after the final external destroys
-	Trace   []string
+	Opts        Opts
+	Log         []gp.Commit
+	Stage1      map[gp.Key]*gp.Snap // store at the first quiescent point (foreign finalizers as the actors left them)
+	Stage2      map[gp.Key]*gp.Snap // store after all foreign finalizers were removed and the system went quiet again
+	Final       map[gp.Key]*gp.Snap // after the final external destroys
+	Trace       []string
 	DestroyErrs []string
-	RunErr  string
-	Transforms int64
+	RunErr      string
+	Transforms  int64
 	// HoldLiftedAt is the log length when the postponement of finalizer removals was lifted (PostponeRemoval scenarios)
 	HoldLiftedAt int
-	RegErrs []string
+	RegErrs      []string
 }
 
 func key(typ, id string) gp.Key { return gp.Key{NS: NS, Type: typ, ID: id} }
@@ -213,8 +213,8 @@ func Run(rng *rand.Rand, o Opts) *Outcome {
 		reg(rt.RegisterQController(qtransform.NewQController(qtransform.Settings[*res.A, *res.C]{
 			Name:                 "QT",
 			FinalizerRemovalFunc: qtRemoval,
-			MapMetadataFunc:   func(in *res.A) *res.C { return res.NewC(NS, in.Metadata().ID()) },
-			UnmapMetadataFunc: func(c *res.C) *res.A { return res.NewA(NS, c.Metadata().ID()) },
+			MapMetadataFunc:      func(in *res.A) *res.C { return res.NewC(NS, in.Metadata().ID()) },
+			UnmapMetadataFunc:    func(c *res.C) *res.A { return res.NewA(NS, c.Metadata().ID()) },
 			TransformFunc: func(ctx context.Context, r controller.Reader, l *zap.Logger, in *res.A, c *res.C) error {
 				if DropToken(in.TypedSpec().Token) {
 					// this input content has no image: the documented way to ask for the output to be removed
@@ -247,7 +247,9 @@ func Run(rng *rand.Rand, o Opts) *Outcome {
 	case "combine":
 		reg(rt.RegisterController(cleanup.NewController(cleanup.Settings[*res.A]{Name: "CL", Handler: &noteHandler{px: px, inner: cleanup.Combine(
 			cleanup.RemoveOutputs[*res.D](childQuery),
-			cleanup.HasNoOutputs[*res.B](func(in *res.A) state.ListOption { return state.WithIDQuery(resource.IDRegexpMatch(mustRegexp("^" + in.Metadata().ID() + "$"))) }),
+			cleanup.HasNoOutputs[*res.B](func(in *res.A) state.ListOption {
+				return state.WithIDQuery(resource.IDRegexpMatch(mustRegexp("^" + in.Metadata().ID() + "$")))
+			}),
 		)}})))
 	}
 
